@@ -813,7 +813,9 @@ func runE2E(data json.RawMessage) vh.Verdict {
 }
 
 // withinTolerance: the query is a point or polyline (or a feature with such a geometry), the feature a path or point,
-// and the two geometries do not touch: their distance is positive.
+// and the point is within the 1 mm that pointIntersectsFeature / polylineIntersectsFeature accept (this includes a
+// point that lies on a path running exactly along a cell edge: rounding may put it into the cell on the other side,
+// which the path's covering does not contain).
 func withinTolerance(q b6.Query, f b6.Feature, w b6.World) bool {
 	var qp []s2.Point
 	switch q := q.(type) {
@@ -861,8 +863,7 @@ func withinTolerance(q b6.Query, f b6.Feature, w b6.World) bool {
 		p, line = fp[0], qp
 	}
 	pl := s2.Polyline(line)
-	d := minDist(p, polylineEdges(&pl))
-	return d > 1e-13 && d < metersToAngle(0.001)
+	return minDist(p, polylineEdges(&pl)) < metersToAngle(0.001)
 }
 
 // explainedByFaceCell: the feature's covering has a level-0 cell related to the query covering, every other
